@@ -32,5 +32,9 @@ func To(t time.Time) *tspb.Timestamp {
 
 // From translates a protobuf Timestamp message to a Golang Time object.
 func From(t *tspb.Timestamp) time.Time {
+	// An absent timestamp (e.g., from an untrusted, empty message) is the zero time, not a crash.
+	if t == nil {
+		return time.Time{}
+	}
 	return time.Unix(t.Seconds, int64(t.Nanos))
 }
